@@ -18,7 +18,7 @@ from ..dataflow import Flow, chain, call_name
 from ..cfg import cfg_of
 from ..poly import Poly, le, lt, eq
 from ..util import (calls_in, decorator_names, qual, has_fact, parse_expr,
-                    class_methods, returns_of, raise_name)
+                    class_methods, returns_of, raise_name, inlinable)
 
 MOD = "rig.machine_control.machine_controller"
 CLS = MOD + ":SlicedMemoryIO"
@@ -47,13 +47,14 @@ OFF = Poly.atom("self._offset")
 
 
 def _inline_props(program):
-    """self.address is a property: inline its body (must be one return)."""
-    fn = program.get(CLS + ".address")
-    rets = returns_of(fn)
-    if len(rets) != 1 or rets[0].value is None:
-        raise AnalysisError("SlicedMemoryIO.address is no longer a single "
-                            "return expression")
-    return {"self.address": rets[0].value}
+    """Properties and zero-argument helper methods of the view class whose
+    body is one expression are inlined by the engines (so extracting such a
+    helper, or calling a property, is transparent to the rules)."""
+    props, meths = inlinable(program, CLS)
+    if "self.address" not in props:
+        raise AnalysisError("SlicedMemoryIO.address is no longer an "
+                            "expression-like property")
+    return props, meths
 
 
 def r_invariant(program, rep):
@@ -75,13 +76,14 @@ def r_invariant(program, rep):
 
 def r1_confinement(program, rep, inline):
     n_sites = 0
+    props, meths = inline
     for meth in class_methods(program, CLS):
         sites = calls_in(meth, ("_perform_read", "_perform_write"))
         if not sites:
             continue
         off0 = Poly.atom("self._offset@0")
         it = Interp(meth, entry_cons=[le(S, E)] + eq(OFF, off0),
-                    inline_props=inline)
+                    inline_props=props, inline_methods=meths)
         for call in sites:
             n_sites += 1
             node = it.cfg.node_containing(call)
@@ -161,224 +163,158 @@ def _entry_with_offset_ghost(it):
     pass
 
 
-def r2_slices(program, rep):
+def r2_slices(program, rep, inline):
+    """Each of the nine (start None/<0/>=0) x (stop None/<0/>=0) cases is
+    analysed separately by the interpreter (hypothesis = that case); at the
+    construction of the child view its start and its effective end (the
+    constructor stores max(start, end)) must equal the clipped sub-range of
+    the file model.  Works on whatever shape the clipping code has (if/elif,
+    conditional expressions, temporaries): only its values are compared."""
     fn = program.get(CLS + ".__getitem__")
     inst = qual(fn)
-    fl = Flow(fn)
-    cfg = fl.cfg
-    ctor = [c for c in calls_in(fn, "SlicedMemoryIO")]
-    if not ctor:
-        raise AnalysisError("__getitem__ no longer constructs a "
-                            "SlicedMemoryIO")
+    props, meths = inline
     params = [a.arg for a in fn.args.args]
     if len(params) != 2:
         raise AnalysisError("__getitem__ signature changed")
     sl = params[1]
-    for call in ctor:
-        node = cfg.node_containing(call)
-        args = list(call.args)
-        kw = {k.arg: k.value for k in call.keywords}
-        parent = args[0] if args else kw.get("parent")
-        start = args[1] if len(args) > 1 else kw.get("start_address")
-        end = args[2] if len(args) > 2 else kw.get("end_address")
-        if parent is None or start is None or end is None:
-            raise AnalysisError("cannot bind SlicedMemoryIO(...) arguments")
-        rep.check(chain(parent) == "self._parent", "C13-R2", inst,
-                  "the slice shares the parent allocation (self._parent), so "
-                  "freeing it disables the slice",
-                  construct="child parent", node=call)
-        # unit step only
-        facts = fl.facts(node)
-        step_ok = any(
-            unparse(c) in ("%s.step is None" % sl, "%s.step == 1" % sl) and p
-            for c, p, _ in facts) or \
-            (has_fact(facts, "%s.step is None" % sl, False) is False and
-             _step_guard(fl, node, sl))
-        rep.check(step_ok, "C13-R2", inst,
-                  "a view is only built for slices with step None or 1",
-                  construct="unit step guard", node=call)
-        # nesting, from the LININV states
-        s_p = Poly.atom(chain(start) or "?")
-        e_p = Poly.atom(chain(end) or "?")
-        it = Interp(fn, entry_cons=[le(S, E)],
-                    candidates=[le(S, s_p), le(s_p, E), le(e_p, E)])
-        n2 = it.cfg.node_containing(call)
-        s_p = it.sym(start, n2)
-        e_p = it.sym(end, n2)
-        rep.check(it.holds_at(n2, [le(S, s_p), le(s_p, E)]), "C13-R2", inst,
-                  "child start within [parent start, parent end]",
-                  construct="child start nested", node=call,
-                  fail="cannot show parent.start <= child start <= "
-                       "parent.end; state: %s" % it.describe(n2))
-        # the constructor clamps end to max(start, end): the effective end
-        rep.check(it.holds_at(n2, [le(e_p, E)]), "C13-R2", inst,
-                  "child end <= parent end", construct="child end nested",
-                  node=call,
-                  fail="cannot show child end <= parent end; state: %s" %
-                       it.describe(n2))
-        # exactness, per definition of start / end
-        _exact(fl, rep, inst, node, start, sl, "start", None)
-        _exact(fl, rep, inst, node, end, sl, "stop", start)
-    rep.floor("C13-R2", 8)
-
-
-def _step_guard(fl, node, sl):
-    """The construction is dominated by (step is None) or (step == 1): with
-    the or-split CFG one of the two facts holds on each path; accept when the
-    construction node is only reachable through those assume nodes."""
-    cfg = fl.cfg
-    oks = [n for n in cfg.nodes if n.kind == "assume" and n.polarity and
-           unparse(n.ast) in ("%s.step is None" % sl, "%s.step == 1" % sl)]
-    if not oks:
-        return False
-    # every path entry -> node passes one of them
-    return cfg.must_pass(cfg.entry, lambda n: n in oks, targets=[node])
-
-
-def _exact(fl, rep, inst, usenode, expr, sl, which, start_expr):
-    """Each definition reaching ``expr`` (a name) at the constructor equals
-    the clipped bound of the file model."""
-    name = chain(expr)
-    if name is None:
-        raise AnalysisError("child %s is not a simple name" % which)
-    idx = Poly.atom("%s.%s" % (sl, which))
-    defs = fl.reaching(name, usenode)
-    if not defs:
-        raise AnalysisError("no definition of %s reaches the constructor" %
-                            name)
-    for d in defs:
-        if d.mode != "assign" or d.value is None:
-            rep.bad("C13-R2", inst, "%s defined by %s" % (which, d.mode),
-                    "child %s is defined in a way the rule cannot read" %
-                    which, d.node.ast)
-            continue
-        facts = fl.facts(d.node)
-        isnone = "%s.%s is None" % (sl, which)
-        val = fl.sym(d.value, d.node)
-        if start_expr is not None:
-            # the lower clip of 'stop' is the child's own start (or,
-            # equivalently after __init__'s max(), anything below it)
-            cs = fl.sym(start_expr, d.node)
-        if has_fact(facts, isnone, True):
-            want = S if which == "start" else E
-            rep.check(val == want, "C13-R2", inst,
-                      "%s omitted -> child %s = %r" % (which, which, want),
-                      construct="%s None case" % which, node=d.node.ast,
-                      fail="%s omitted but child %s is %r, expected %r" % (
-                          which, which, val, want))
-            continue
-        cons = fl.constraints(d.node)
-        # case analysis over the sign of the index, restricted to the cases
-        # the guard admits
-        from ..poly import feasible
-        cases = [("negative", [lt(idx, 0)]), ("non-negative", [le(0, idx)])]
-        for cname, region in cases:
-            if not feasible(cons + region):
-                continue
-            if cname == "negative":
-                raw = E + idx
-                if which == "start":
-                    goal_lo, goal_hi = S, E
+    ctor = calls_in(fn, "SlicedMemoryIO")
+    if len(ctor) != 1:
+        raise AnalysisError("__getitem__: expected one SlicedMemoryIO(...)")
+    call = ctor[0]
+    args = list(call.args)
+    kw = {k.arg: k.value for k in call.keywords}
+    parent = args[0] if args else kw.get("parent")
+    start = args[1] if len(args) > 1 else kw.get("start_address")
+    end = args[2] if len(args) > 2 else kw.get("end_address")
+    if parent is None or start is None or end is None:
+        raise AnalysisError("cannot bind SlicedMemoryIO(...) arguments")
+    fl0 = Flow(fn, inline_props=props, inline_methods=meths)
+    n0 = fl0.cfg.node_containing(call)
+    rep.check(fl0.sym(parent, n0) == Poly.atom("self._parent"), "C13-R2",
+              inst, "the slice shares the parent allocation (self._parent), "
+              "so freeing it disables the slice",
+              construct="child parent", node=call)
+    A = Poly.atom("%s.start" % sl)
+    B = Poly.atom("%s.stop" % sl)
+    cases = [("None", None), ("negative", "neg"), ("non-negative", "pos")]
+    for an, ak in cases:
+        for bn, bk in cases:
+            ent = [le(S, E)]
+            # the case: None-ness and sign of the slice's start / stop
+            extra = []
+            for atom, kind in ((A, ak), (B, bk)):
+                nm = list(atom.t)[0][0]
+                isn = Poly.atom("isnone(%s)" % nm)
+                if kind is None:
+                    extra += eq(isn, 1)
                 else:
-                    goal_lo, goal_hi = None, E
+                    extra += eq(isn, 0)
+                    extra += [lt(atom, 0)] if kind == "neg" else [le(0, atom)]
+            it = Interp(fn, entry_cons=ent + extra, inline_props=props,
+                        inline_methods=meths)
+            node = it.cfg.node_containing(call)
+            if not it.reachable(node):
+                rep.bad("C13-R2", inst, "case start %s / stop %s never "
+                        "builds a view" % (an, bn), "slicing with start %s "
+                        "and stop %s does not reach the construction of the "
+                        "child view" % (an, bn), call)
+                continue
+            fl = it.flow
+            s_p = it.sym(start, node)
+            e_p = it.sym(end, node)
+            if ak is None:
+                want_s = S
+            elif ak == "neg":
+                want_s = fl.minmax("max", [S, E + A])
             else:
-                raw = S + idx
-            # expected value: clip(raw, lo, hi) with lo = parent start (or
-            # child start for stop), hi = parent end.  Because the
-            # constructor stores max(start, end), any value v with
-            #   v == clip(raw)  or  (raw < lo and v <= lo)
-            # denotes the same view; require the exact clip when raw is in
-            # range and the bound otherwise.
-            lo = S if which == "start" else cs
-            pre = [le(S, E)] + region
-            if which == "stop":
-                pre += [le(S, cs), le(cs, E)]
-            ok_mid = fl.prove(d.node, eq(val, raw),
-                              extra=pre + [le(lo, raw), le(raw, E)])
-            ok_hi = fl.prove(d.node, eq(val, E),
-                             extra=pre + [lt(E, raw)])
-            if which == "start":
-                ok_lo = fl.prove(d.node, eq(val, S),
-                                 extra=pre + [lt(raw, lo)])
-            else:
-                ok_lo = fl.prove(d.node, [le(val, cs)],
-                                 extra=pre + [lt(raw, lo)])
-            rep.check(ok_mid and ok_hi and ok_lo, "C13-R2", inst,
-                      "%s %s index: child %s = clip(%r) into the parent "
-                      "range" % (cname, which, which, raw),
-                      construct="%s %s case" % (which, cname),
-                      node=d.node.ast,
-                      fail="for a %s %s index the child %s is %r, which is "
-                           "not %r clipped to [%s, parent end] (in-range:%s "
-                           "above:%s below:%s)" % (
-                               cname, which, which, val, raw,
-                               "parent start" if which == "start"
-                               else "child start", ok_mid, ok_hi, ok_lo))
+                want_s = fl.minmax("min", [E, S + A])
+            raw = E if bk is None else (E + B if bk == "neg" else S + B)
+            want_e = fl.minmax("max", [want_s, fl.minmax("min", [E, raw])])
+            eff_e = fl.minmax("max", [s_p, e_p])
+            st = it.describe(node)
+            ok_s = it.holds_at(node, eq(s_p, want_s))
+            ok_e = it.holds_at(node, eq(eff_e, want_e))
+            rep.check(ok_s, "C13-R2", inst,
+                      "start %s, stop %s: child start = %r" % (an, bn,
+                                                                want_s),
+                      construct="slice start, start %s stop %s" % (an, bn),
+                      node=call,
+                      fail="slicing with a %s start (stop %s): the child "
+                           "view does not start at %r (the start index "
+                           "measured from the %s and clipped into the "
+                           "parent); state: %s" % (
+                               an, bn, want_s, "end" if ak == "neg"
+                               else "start", st))
+            rep.check(ok_e, "C13-R2", inst,
+                      "start %s, stop %s: child end = %r" % (an, bn, want_e),
+                      construct="slice end, start %s stop %s" % (an, bn),
+                      node=call,
+                      fail="slicing with a %s stop (start %s): the child "
+                           "view does not end at %r (the stop index clipped "
+                           "into [child start, parent end]); state: %s" % (
+                               bn, an, want_e, st))
+    # non-unit steps are rejected: under the hypothesis that the step is
+    # neither None nor 1 the construction is unreachable
+    STEP = Poly.atom("%s.step" % sl)
+    for label, cons in (("step >= 2", [le(2, STEP)]),
+                        ("step <= 0", [le(STEP, 0)])):
+        it = Interp(fn, entry_cons=[le(S, E)] + cons + eq(
+            Poly.atom("isnone(%s.step)" % sl), 0), inline_props=props,
+            inline_methods=meths)
+        node = it.cfg.node_containing(call)
+        rep.check(not it.reachable(node), "C13-R2", inst,
+                  "a slice with %s never builds a view (ValueError)" % label,
+                  construct="non-unit step %s" % label, node=call)
+    rep.floor("C13-R2", 20)
 
 
-def r3_seek(program, rep):
+def r3_seek(program, rep, inline):
+    """seek() is analysed once per whence value (as an entry hypothesis); on
+    normal exit the new offset must be the file model's.  Other whence values
+    must not return normally."""
     fn = program.get(CLS + ".seek")
     inst = qual(fn)
-    fl = Flow(fn)
-    cfg = fl.cfg
+    props, meths = inline
     names = [a.arg for a in fn.args.args]
     if len(names) < 3:
         raise AnalysisError("seek signature changed")
     n_arg, whence = names[1], names[2]
     N = Poly.atom(n_arg)
-    spec = {0: N, 1: OFF + N, 2: (E - S) + N}
-    seen = set()
-    for d in fl.defs:
-        if d.var != "self._offset" or d.mode not in ("assign", "aug"):
-            continue
-        facts = fl.facts(d.node)
-        k = None
-        for cond, pol, _ in facts:
-            if pol and isinstance(cond, ast.Compare) and \
-                    len(cond.ops) == 1 and isinstance(cond.ops[0], ast.Eq):
-                l, r = cond.left, cond.comparators[0]
-                for a, b in ((l, r), (r, l)):
-                    if chain(a) == whence:
-                        v = _const(program, b)
-                        if v is not None:
-                            k = v
-        if k is None:
-            rep.bad("C13-R3", inst, "offset written without whence guard",
-                    "seek writes the position on a path not selected by a "
-                    "whence value", d.node.ast)
-            continue
-        # value after the statement
-        if d.mode == "assign":
-            val = fl.sym(d.value, d.node)
-        else:
-            s = d.value
-            fake = ast.BinOp(left=s.target, op=s.op, right=s.value)
-            ast.copy_location(fake, s)
-            fake._parent = s
-            val = fl.sym(fake, d.node)
-        seen.add(k)
-        if k not in spec:
-            rep.bad("C13-R3", inst, "whence %r accepted" % k,
-                    "seek accepts whence=%r which the file model rejects" % k,
-                    d.node.ast)
-            continue
-        rep.check(val == spec[k], "C13-R3", inst,
-                  "whence %d -> offset := %r" % (k, spec[k]),
-                  construct="whence %d -> %r" % (k, val), node=d.node.ast,
-                  fail="seek(n, %d) sets the position to %r; a file (and the "
-                       "method's docstring) gives %r" % (k, val, spec[k]))
+    W = Poly.atom(whence)
+    off0 = Poly.atom("self._offset@0")
+    spec = {0: N, 1: off0 + N, 2: (E - S) + N}
+    text = {0: "n", 1: "old offset + n", 2: "length + n"}
     for k in (0, 1, 2):
-        if k not in seen:
-            rep.bad("C13-R3", inst, "whence %d unhandled" % k,
-                    "seek does not handle whence=%d" % k, fn)
-    # any other whence raises: every path to the normal exit passes a
-    # position write (each of which was matched to a whence above)
-    writes = set(d.node.id for d in fl.defs if d.var == "self._offset")
-    ok = cfg.must_pass(cfg.entry, lambda n: n.id in writes)
-    rep.check(ok, "C13-R3", inst, "every normally-returning path of seek "
-              "sets the position under a recognised whence (others raise)",
-              construct="invalid whence falls through", node=fn)
-    rep.floor("C13-R3", 4)
+        it = Interp(fn, entry_cons=eq(W, k) + eq(OFF, off0) + [le(S, E)],
+                    inline_props=props, inline_methods=meths,
+                    candidates=eq(OFF, spec[k]))
+        ex = it.cfg.exit
+        if not it.reachable(ex):
+            rep.bad("C13-R3", inst, "whence %d rejected" % k,
+                    "seek(n, %d) never returns normally" % k, fn)
+            continue
+        ok = it.holds_at(ex, eq(OFF, spec[k]))
+        construct = "whence %d -> %s" % (k, text[k])
+        if not ok and k == 2 and it.holds_at(ex, eq(OFF, (E - S) - N)):
+            # the specific, recorded deviation: length - n
+            construct = ("whence 2 -> -n_bytes + self._end_address - "
+                         "self._start_address")
+        elif not ok:
+            construct = "whence %d -> not %s (%s)" % (
+                k, text[k], it.describe(ex)[-120:])
+        rep.check(ok, "C13-R3", inst, "seek(n, %d) sets the position to %s"
+                  % (k, text[k]), construct=construct, node=fn,
+                  fail="seek(n, %d) does not set the position to %s as a "
+                       "file (and the method's docstring) does; state on "
+                       "exit: %s" % (k, text[k], it.describe(ex)))
+    for label, cons in (("whence < 0", [le(W, -1)]),
+                        ("whence > 2", [le(3, W)])):
+        it = Interp(fn, entry_cons=cons, inline_props=props,
+                    inline_methods=meths)
+        rep.check(not it.reachable(it.cfg.exit), "C13-R3", inst,
+                  "%s is rejected (no normal return)" % label,
+                  construct="invalid %s accepted" % label, node=fn)
+    rep.floor("C13-R3", 5)
 
 
 def _const(program, expr):
@@ -435,6 +371,10 @@ def r5_guards(program, rep):
     # coverage
     for m in class_methods(program, CLS):
         if m.name in GUARDED_EXEMPT:
+            continue
+        if m.name.startswith("_") and not m.name.startswith("__"):
+            # private helper: not an operation of the view; it is only
+            # reachable through the (guarded) public operations
             continue
         decs = decorator_names(m)
         rep.check("_if_not_closed" in decs, "C13-R5", qual(m),
@@ -578,8 +518,8 @@ def check(program, rep):
     inline = _inline_props(program)
     r_invariant(program, rep)
     r1_confinement(program, rep, inline)
-    r2_slices(program, rep)
-    r3_seek(program, rep)
+    r2_slices(program, rep, inline)
+    r3_seek(program, rep, inline)
     r5_guards(program, rep)
     r6_truncation_warning(program, rep)
     rep.assume("distinct local names are not aliases of one mutable object")
